@@ -641,23 +641,10 @@ package argmapper
 //@   ensures  [rule-instances-only] ruleInv(g)
 //@   ensures  [root-kept] imp(err == nil, typeis(vertexRoot, *rootVertex) && has(g.hash, hc(vertexRoot)) && hkind(hc(vertexRoot)) == 5)
 //@   assigns  graph.Graph, Outer, Inner, HashM, VisitM, []graph.Vertex, [][]graph.Vertex, valueVertex, typedArgVertex, typedOutputVertex, funcVertex, rootVertex, Value, valueInternal, []*Value, ErrArgumentUnsatisfied, []*Func, []interface{}, reported, dvisited, kpos, spos, fin, frozen, cnt, reqs, ins
-//@   modifies nothing
+//@   modifies forall(m, Inner, true), forall(m, Outer, true), forall(m, HashM, true)
 //@   tail-split
-//@   hint frame-call using maps-fresh, Add.foot, AddEdge.foot, AddEdgeWeighted.foot, Add.1, AddEdgeWeighted.1, AddEdge.1, graph.foot, graph.graph-kept-well-formed
 //@   hint call-requires/.*endpoints-present using reps, step-reps, root, Add!, AddEdgeWeighted!, AddEdge!
 //@   hint panic/nil using reps
-//@   loop 1 invariant [maps-fresh using maps-fresh, Add, AddEdgeWeighted, AddEdge, Remove, Reverse, DFS!, graph.foot, graph.graph-kept-well-formed, footGrows, innerStable, frameG, alloc] fresh(g.hash) && fresh(g.adjacencyOut) && fresh(g.adjacencyIn) && forall(m, Inner, imp(infoot(g, m), fresh(m)))
-//@   loop 2 invariant [maps-fresh using maps-fresh, Add, AddEdgeWeighted, AddEdge, Remove, Reverse, DFS!, graph.foot, graph.graph-kept-well-formed, footGrows, innerStable, frameG, alloc] fresh(g.hash) && fresh(g.adjacencyOut) && fresh(g.adjacencyIn) && forall(m, Inner, imp(infoot(g, m), fresh(m)))
-//@   loop 3 invariant [maps-fresh using maps-fresh, Add, AddEdgeWeighted, AddEdge, Remove, Reverse, DFS!, graph.foot, graph.graph-kept-well-formed, footGrows, innerStable, frameG, alloc] fresh(g.hash) && fresh(g.adjacencyOut) && fresh(g.adjacencyIn) && forall(m, Inner, imp(infoot(g, m), fresh(m)))
-//@   loop 4 invariant [maps-fresh using maps-fresh, Add, AddEdgeWeighted, AddEdge, Remove, Reverse, DFS!, graph.foot, graph.graph-kept-well-formed, footGrows, innerStable, frameG, alloc] fresh(g.hash) && fresh(g.adjacencyOut) && fresh(g.adjacencyIn) && forall(m, Inner, imp(infoot(g, m), fresh(m)))
-//@   loop 5 invariant [maps-fresh using maps-fresh, Add, AddEdgeWeighted, AddEdge, Remove, Reverse, DFS!, graph.foot, graph.graph-kept-well-formed, footGrows, innerStable, frameG, alloc] fresh(g.hash) && fresh(g.adjacencyOut) && fresh(g.adjacencyIn) && forall(m, Inner, imp(infoot(g, m), fresh(m)))
-//@   loop 6 invariant [maps-fresh using maps-fresh, Add, AddEdgeWeighted, AddEdge, Remove, Reverse, DFS!, graph.foot, graph.graph-kept-well-formed, footGrows, innerStable, frameG, alloc] fresh(g.hash) && fresh(g.adjacencyOut) && fresh(g.adjacencyIn) && forall(m, Inner, imp(infoot(g, m), fresh(m)))
-//@   loop 7 invariant [maps-fresh using maps-fresh, Add, AddEdgeWeighted, AddEdge, Remove, Reverse, DFS!, graph.foot, graph.graph-kept-well-formed, footGrows, innerStable, frameG, alloc] fresh(g.hash) && fresh(g.adjacencyOut) && fresh(g.adjacencyIn) && forall(m, Inner, imp(infoot(g, m), fresh(m)))
-//@   loop 8 invariant [maps-fresh using maps-fresh, Add, AddEdgeWeighted, AddEdge, Remove, Reverse, DFS!, graph.foot, graph.graph-kept-well-formed, footGrows, innerStable, frameG, alloc] fresh(g.hash) && fresh(g.adjacencyOut) && fresh(g.adjacencyIn) && forall(m, Inner, imp(infoot(g, m), fresh(m)))
-//@   loop 9 invariant [maps-fresh using maps-fresh, Add, AddEdgeWeighted, AddEdge, Remove, Reverse, DFS!, graph.foot, graph.graph-kept-well-formed, footGrows, innerStable, frameG, alloc] fresh(g.hash) && fresh(g.adjacencyOut) && fresh(g.adjacencyIn) && forall(m, Inner, imp(infoot(g, m), fresh(m)))
-//@   loop 10 invariant [maps-fresh using maps-fresh, Add, AddEdgeWeighted, AddEdge, Remove, Reverse, DFS!, graph.foot, graph.graph-kept-well-formed, footGrows, innerStable, frameG, alloc] fresh(g.hash) && fresh(g.adjacencyOut) && fresh(g.adjacencyIn) && forall(m, Inner, imp(infoot(g, m), fresh(m)))
-//@   loop 11 invariant [maps-fresh using maps-fresh, Add, AddEdgeWeighted, AddEdge, Remove, Reverse, DFS!, graph.foot, graph.graph-kept-well-formed, footGrows, innerStable, frameG, alloc] fresh(g.hash) && fresh(g.adjacencyOut) && fresh(g.adjacencyIn) && forall(m, Inner, imp(infoot(g, m), fresh(m)))
-//@   loop 12 invariant [maps-fresh using maps-fresh, Add, AddEdgeWeighted, AddEdge, Remove, Reverse, DFS!, graph.foot, graph.graph-kept-well-formed, footGrows, innerStable, frameG, alloc] fresh(g.hash) && fresh(g.adjacencyOut) && fresh(g.adjacencyIn) && forall(m, Inner, imp(infoot(g, m), fresh(m)))
 //@   loop * invariant [wf using wf, Add!, AddEdgeWeighted!, AddEdge!, Remove!, Reverse!, DFS!] wf(g) && sameRefs(g)
 //@   loop 1 invariant [gOK using gOK, step-gOK, reps, graph.graph-kept-well-formed, Add!, AddEdgeWeighted!, AddEdge!, Remove!, Reverse!, DFS!] gOK(g)
 //@   loop 2 invariant [gOK using gOK, step-gOK, reps, graph.graph-kept-well-formed, Add!, AddEdgeWeighted!, AddEdge!, Remove!, Reverse!, DFS!] gOK(g)
@@ -673,7 +660,7 @@ package argmapper
 //@   loop 12 invariant [gOK using gOK, step-gOK, reps, graph.graph-kept-well-formed, Add!, AddEdgeWeighted!, AddEdge!, Remove!, Reverse!, DFS!] gOK(g)
 //@   loop 13 invariant [gOK using gOK, step-gOK, reps, graph.graph-kept-well-formed, Add!, AddEdgeWeighted!, AddEdge!, Remove!, Reverse!, DFS!] imp(len(unsatisfied) == 0, gOK(g))
 //@   loop * invariant [rules using rules, AddEdgeWeighted!, AddEdge!, Add!, Remove!, Reverse!, DFS!, graph.rule-instances-only] ruleInv(g)
-//@   loop * invariant [root using root, Add!, AddEdgeWeighted!, AddEdge!, Remove!, Reverse!, DFS!, visited-root] typeis(vertexRoot, *rootVertex) && as(vertexRoot, *rootVertex) != nil && has(g.hash, hc(vertexRoot)) && hkind(hc(vertexRoot)) == 5 && args != nil
+//@   loop * invariant [root using root, Add!, AddEdgeWeighted!, AddEdge!, Remove!, Reverse!, DFS!, visited-root] typeis(vertexRoot, *rootVertex) && as(vertexRoot, *rootVertex) != nil && has(g.hash, hc(vertexRoot)) && g.hash[hc(vertexRoot)] == vertexRoot && hkind(hc(vertexRoot)) == 5 && args != nil
 //@   loop * invariant [ghost-state] planning == old(planning) && failed == old(failed) && nexec == old(nexec) && sliceskept([]graph.Vertex) && sliceskept([]*Func)
 //@   loop 1 invariant [reps using reps, step-reps, Vertices.reps, gOK, graph.graph-kept-well-formed, Add!, AddEdgeWeighted!, AddEdge!] forall(i, int, imp(0 <= i && i < len(rslice1), has(g.hash, hc(rslice1[i])) && g.hash[hc(rslice1[i])] == rslice1[i] && repOK(rslice1[i])))
 //@   loop 2 invariant [reps using reps, step-reps, Vertices.reps, gOK, graph.graph-kept-well-formed, Add!, AddEdgeWeighted!, AddEdge!] forall(i, int, imp(0 <= i && i < len(rslice2), has(g.hash, hc(rslice2[i])) && g.hash[hc(rslice2[i])] == rslice2[i] && repOK(rslice2[i])))
